@@ -26,13 +26,14 @@ from harness import pandora_util as pu
 GEN = ["gen_flags"]
 EXTRACT_FILES = ["X04"]
 DRIVERS = ["x04"]
-RULE = ("(A) layouts = (rows, cols, window, interval or grids, subpix, measure, left/right masks over "
-        "{valid, no-data, masked}); random layouts plus 1-row layouts enumerated exhaustively (thorough: both "
+RULE = ("(A) layouts = (rows, cols, window, interval or grids, subpix, measure in sad/ssd/census/zncc, left/right masks over "
+        "{valid, no-data, masked}); random layouts, layouts SMALLER than the window (rows or cols < window, window 3/5, "
+        "every measure), plus 1-row layouts enumerated exhaustively (thorough: both "
         "masks x all intervals within [-3,3] x window {1,3} up to width 4, one mask exhaustive against sampled "
         "other masks up to width 7; quick: sampled); a layout is non-trivial when some pixel carries a flag "
         "other than 0 and the border value; distinct by full content. (B) pipelines = random legal words "
         "MC (A|C)* D (F|R|V)* with repeated refinement / filter / validation steps and interpolation, run on "
-        "6..9 x 9..13 masked images (window 1/3/5, sad/ssd/census, subpix 1/2, invalid_disparity -9999 / NaN / 77); non-trivial when some flag changes after the disparity step; distinct by "
+        "6..9 x 9..13 masked images (window 1/3/5, sad/ssd/census/zncc, subpix 1/2, invalid_disparity -9999 / NaN / 77); non-trivial when some flag changes after the disparity step; distinct by "
         "(step list, image seed)")
 ASSUMES = [
     "cv.coords['col'] = 0..nc-1 with step 1 (no ROI, step_col = 1), odd window sizes, integer global interval",
@@ -41,9 +42,14 @@ ASSUMES = [
     "the 0/1 factors of the flag writes (dil, comp, msk[arg_valid]) are 0/1 (modelled as booleans)",
     "flag-level model of refinement / cross-checking / interpolation / median_for_intervals: which pixel is "
     "stopped, inconsistent, filled, regularised is an arbitrary decision (numeric side: C06, C07, C14, C10)",
-    "'all costs NaN <-> no computable disparity of the global interval' is PROVED for the SAD / SSD volume models of C02 "
-    "(C04_nan_pattern_sad, C04_invalid_iff_allnan_sad/ssd); for census / zncc (no C02 theorem yet) and for the real cost "
-    "volumes it is the hypothesis nan_pattern_ok of the criteria theorems, checked on every real volume of the run",
+    "'all costs NaN <-> no computable disparity of the global interval' is PROVED for the cost-volume models of the four "
+    "built-in measures of C02 (C04_nan_pattern_sad/_census/_zncc/_every_measure, C04_invalid_iff_allnan_sad/ssd/census/"
+    "zncc/every_measure; census for the windows with w*w <= 32, i.e. 1, 3, 5, as C02_census_model_eq_spec; images smaller "
+    "than the window included: C04_smaller_than_window_all_invalid); the theorems that take an arbitrary NaN pattern keep "
+    "the hypothesis nan_pattern_ok. For the REAL cost volumes (float32 numba / numpy kernels, tied to the models by C02's "
+    "correspondence, not by this one) the pattern is observed on every volume of the run: 'invalid flag <-> all costs NaN' "
+    "is checked on the implementation's own mask and volume, and all-costs-NaN is compared with the extracted "
+    "'no computable disparity' spec (counter allnan_differs_from_computable_spec)",
     "the border invariant of the pipeline theorem is 'flag 1, or 2049 after a regularising median_for_intervals' (recorded "
     "finding border_regularized); own-bits of a step is proved for pixels whose flag is 1 when on the border",
     "plugin steps (optimization, semantic_segmentation), multiscale pyramids and the dead functions "
@@ -162,7 +168,7 @@ def gen_random_layout(rng):
     lcls = random_cls(rng, rows, cols, p_nd, p_inv) if rng.random() < 0.85 else None
     rcls = random_cls(rng, rows, cols, p_nd, p_inv) if rng.random() < 0.85 else None
     subpix = rng.choice([1, 1, 2, 4])
-    method = rng.choice(["sad", "ssd", "census"]) if w in (3, 5) else rng.choice(["sad", "ssd"])
+    method = rng.choice(["sad", "ssd", "census", "zncc"]) if w in (3, 5) else rng.choice(["sad", "ssd", "zncc"])
     grids = None
     if rng.random() < 0.3:
         gmin = [[rng.randrange(dmin, dmax + 1) for _ in range(cols)] for _ in range(rows)]
@@ -175,6 +181,33 @@ def gen_random_layout(rng):
         grids = (gmin, gmax)
     return dict(rows=rows, cols=cols, w=w, off=off, dmin=dmin, dmax=dmax, lcls=lcls, rcls=rcls, subpix=subpix,
                 method=method, grids=grids, masked_value=rng.choice([2, 2, 5, 255, -3]), full=True)
+
+
+def gen_small_layout(rng):
+    """an image smaller than the window in rows, in columns or in both (no window fits: every cost is NaN, for
+    census / zncc through the early return; every pixel must carry bit 0 only)"""
+    w = rng.choice([3, 3, 5])
+    off = (w - 1) // 2
+    which = rng.choice(["rows", "cols", "both"])
+    rows = rng.randrange(1, w) if which in ("rows", "both") else rng.randrange(w, w + 4)
+    cols = rng.randrange(1, w) if which in ("cols", "both") else rng.randrange(w, w + 6)
+    a, b = rng.randrange(-3, 4), rng.randrange(-3, 4)
+    dmin, dmax = min(a, b), max(a, b)
+    p_nd, p_inv = rng.choice([(0.0, 0.0), (0.1, 0.1), (0.3, 0.2)])
+    lcls = random_cls(rng, rows, cols, p_nd, p_inv) if rng.random() < 0.7 else None
+    rcls = random_cls(rng, rows, cols, p_nd, p_inv) if rng.random() < 0.7 else None
+    grids = None
+    if rng.random() < 0.25 and dmin < dmax:
+        gmin = [[rng.randrange(dmin, dmax + 1) for _ in range(cols)] for _ in range(rows)]
+        gmax = [[rng.randrange(g, dmax + 1) for g in r] for r in gmin]
+        gmin[rng.randrange(rows)][rng.randrange(cols)] = dmin
+        i, j = rng.randrange(rows), rng.randrange(cols)
+        gmax[i][j] = dmax
+        gmin[i][j] = min(gmin[i][j], dmax)
+        grids = (gmin, gmax)
+    return dict(rows=rows, cols=cols, w=w, off=off, dmin=dmin, dmax=dmax, lcls=lcls, rcls=rcls,
+                subpix=rng.choice([1, 1, 2, 4]), method=rng.choice(["sad", "ssd", "census", "zncc"]), grids=grids,
+                masked_value=rng.choice([2, 2, 5, 255, -3]), full=True, small=True)
 
 
 def embed_row(row_cls, w):
@@ -263,6 +296,11 @@ def check_layouts(ctx, model, layouts, label):
                 ctx.stats["matching_cost_errors"].append(
                     {"layout": {k: lay[k] for k in ("rows", "cols", "w", "dmin", "dmax", "method", "subpix")},
                      "error": f"{type(exc).__name__}: {exc}"[:120]})
+            if lay.get("small"):
+                # no measure raises on an image smaller than the window (sad / ssd: NaN through the index arithmetic,
+                # census / zncc: early all-NaN return); the theorems read an all-NaN volume there
+                ctx.mismatch("matching cost raised on an image smaller than the window",
+                             {"kind": "layout", "layout": lay}, f"{type(exc).__name__}: {exc}"[:200], "an all-NaN volume")
             lay = dict(lay, full=False)
             try:
                 rec.update(s0=criteria_only(L, R, cfg), s1=None, allnan=None)
@@ -317,6 +355,16 @@ def check_layouts(ctx, model, layouts, label):
             ctx.violation("invalid_flag_vs_allnan",
                           f"after the matching cost pixel ({i},{j}) has flag {int(s1[i, j])} but all-costs-NaN is "
                           f"{bool(allnan[i, j])} (window {lay['w']}, interval [{lay['dmin']},{lay['dmax']}])", replay)
+        ctx.count("volumes_" + lay["method"])
+        if lay.get("small"):
+            # C04_smaller_than_window_all_invalid: every pixel carries bit 0 only, every cost is NaN
+            ctx.count("smaller_than_window_" + lay["method"])
+            if np.any(s1 != 1) or not bool(np.all(allnan)):
+                i, j = map(int, np.argwhere((s1 != 1) | ~allnan)[0])
+                ctx.violation("smaller_than_window_not_all_bit0",
+                              f"{lay['rows']}x{lay['cols']} image, window {lay['w']} ({lay['method']}): pixel ({i},{j}) carries "
+                              f"{int(s1[i, j])} and all-costs-NaN is {bool(allnan[i, j])}; no window fits, every pixel "
+                              f"must carry bit 0 only and no cost is computable", replay)
         if not np.array_equal(allnan, nocost):
             # C02's statement (NaN <-> not computable); counted, reported as a violation of the story only when
             # it breaks the flag side as well (caught above / below)
@@ -339,6 +387,7 @@ def part_a(ctx, model):
         return
     n = 350 if quick else 5000
     check_layouts(ctx, model, [gen_random_layout(rng) for _ in range(n)], "random")
+    check_layouts(ctx, model, [gen_small_layout(rng) for _ in range(120 if quick else 1500)], "smaller_than_window")
     one = gen_one_row_layouts(ctx)
     for i in range(0, len(one), 20000):
         check_layouts(ctx, model, one[i:i + 20000], "one_row")
@@ -355,7 +404,7 @@ CV_KINDS = ("aggregation", "optimization", "semantic_segmentation", "cost_volume
 def gen_pipeline_case(rng, idx):
     rows, cols = rng.randrange(6, 10), rng.randrange(9, 14)
     w = rng.choice([1, 3, 3, 5])
-    method = rng.choice(["sad", "ssd", "census"]) if w in (3, 5) else rng.choice(["sad", "ssd"])
+    method = rng.choice(["sad", "ssd", "census", "zncc"]) if w in (3, 5) else rng.choice(["sad", "ssd", "zncc"])
     a, b = rng.randrange(-3, 4), rng.randrange(-3, 4)
     disp = [min(a, b), max(a, b)]
     shift = rng.randrange(-1, 2)
